@@ -62,10 +62,10 @@ type World struct {
 	NextWID uint32
 	attachA map[*Conn]int // index into AckLog at attach time
 	rest    http.Handler  // the controller's management API (what an operator or the CSI driver sees)
-	rdv *rendezvous // set while an operation's replicas are to answer at the same instant
+	rdv     *rendezvous   // set while an operation's replicas are to answer at the same instant
 	// Net: the controller uses the real backend (backend/remote + rpc) against scripted replica endpoints (net.go)
 	Net        bool
-	lateBudget int // replies later than the rpc deadline still allowed in this history (net mode)
+	lateBudget int  // replies later than the rpc deadline still allowed in this history (net mode)
 	forceHang  bool // the next monitor failure is of the hang-then-drop kind (net mode)
 	// OperatorRW: an operator request set a replica's mode to RW by hand (no verification, no counter equalisation)
 	OperatorRW bool
